@@ -24,7 +24,9 @@ RULE = ('generated references (2-3 genes on 1-2 chromosomes, all strand combinat
     'built directly from the row\'s genomic breakpoints and the genome; (ii) the parser\'s GVF '
     'is fed to callVariant: every definitional junction-spanning peptide is reported and '
     'every peptide labelled with a fusion id is a digestion product of that fusion sequence; '
-    '(iii) skipped rows are tallied by reason. Non-trivial = an intronic breakpoint, a '
+    '(iii) skipped rows are tallied by reason; (iv) a STAR-Fusion row on a contig that the '
+    'genome does not hold ends the command with an error, and with --skip-failed it is '
+    'skipped while the other rows are converted. Non-trivial = an intronic breakpoint, a '
     'minus-strand partner or >= 2 eligible pairs; distinct by canonical JSON')
 ASSUMPTIONS = [
     'all three formats give the last retained donor base and the first retained acceptor base '
@@ -77,7 +79,8 @@ def strategy_(draw, tier):
         if any((x['g1'], x['g2'], x['lp'], x['rp']) == (g1['id'], g2['id'], lp, rp)
                 for x in rows):
             continue      # a tool reports a breakpoint pair once
-        row = dict(g1=g1['id'], g2=g2['id'], lp=lp, rp=rp, unknown=d.chance(0.1))
+        row = dict(g1=g1['id'], g2=g2['id'], lp=lp, rp=rp, unknown=d.chance(0.1),
+            nochrom=d.chance(0.08) and fmt == 'star')
         if fmt == 'star':
             row['est_j'] = d.choice([th['min_est_j'] - 0.5, th['min_est_j'], th['min_est_j'] + 3])
         elif fmt == 'catcher':
@@ -116,25 +119,29 @@ def write_rows(ref, case, path):
     for r in case['rows']:
         g1, g2 = ref.genes[r['g1']], ref.genes[r['g2']]
         id1 = 'ENSG00000099999.1' if r['unknown'] else g1['id']
+        # a breakpoint on a contig that the genome FASTA does not hold (unplaced scaffold,
+        # chr-prefix mismatch): the row cannot be converted (STAR-Fusion rows only: the other
+        # two parsers take the chromosome from the gene model)
+        chrom1 = 'chrUn_KI270742v1' if r.get('nochrom') else g1['chrom']
         s1 = '+' if g1['strand'] == 1 else '-'
         s2 = '+' if g2['strand'] == 1 else '-'
         if fmt == 'star':
             lines.append('\t'.join([f"{g1['name']}--{g2['name']}", '4', '5', f"{r['est_j']:.2f}",
                 '3.86', 'ONLY_REF_SPLICE', f"{g1['name']}^{id1}",
-                f"{g1['chrom']}:{r['lp'] + 1}:{s1}", f"{g2['name']}^{g2['id']}",
+                f"{chrom1}:{r['lp'] + 1}:{s1}", f"{g2['name']}^{g2['id']}",
                 f"{g2['chrom']}:{r['rp'] + 1}:{s2}", 'r1,r2', 'f1,f2', 'YES_LDAS', '0.1045',
                 'GT', '1.9086', 'AG', '1.7232', '["INTRACHROMOSOMAL[chr9:40.92Mb]"]']))
         elif fmt == 'catcher':
             gid1 = id1 if r['versioned'] else id1.split('.')[0]
             gid2 = g2['id'] if r['versioned'] else g2['id'].split('.')[0]
             lines.append('\t'.join([g1['name'], g2['name'], 'oncogene', str(r['common']), '1298',
-                str(r['unique']), '21', 'BOWTIE+STAR', f"{g1['chrom'][3:]}:{r['lp'] + 1}:{s1}",
+                str(r['unique']), '21', 'BOWTIE+STAR', f"{chrom1[3:]}:{r['lp'] + 1}:{s1}",
                 f"{g2['chrom'][3:]}:{r['rp'] + 1}:{s2}", gid1, gid2, '', '',
                 'TTGACGAGAC*CGCCCTGCGA', 'intronic/exonic(no-known-CDS)']))
         else:
             t1 = s1 if not r['antisense'] else ('-' if s1 == '+' else '+')
             lines.append('\t'.join([g1['name'], g2['name'], f'{s1}/{t1}', f'{s2}/{s2}',
-                f"{g1['chrom']}:{r['lp'] + 1}", f"{g2['chrom']}:{r['rp'] + 1}", 'CDS/splice-site',
+                f"{chrom1}:{r['lp'] + 1}", f"{g2['chrom']}:{r['rp'] + 1}", 'CDS/splice-site',
                 'intron', "deletion/5'-5'", str(r['sr1']), str(r['sr2']), '19', '191', '92',
                 r['conf'], 'out-of-frame', '.', '.', '.', '.', id1, g2['id'], '.', '.',
                 'downstream', 'downstream', 'duplicates(30)', 'TTGACG|CGCCCT', '.', 'r1,r2']))
@@ -208,6 +215,27 @@ def prop(case, ctx):
         'arriba': 'parse_arriba'}[fmt]
     a = argparse.Namespace(command=cmd, input_path=d/'fusion.txt', output_path=d/'fusion.gvf',
         source='Fusion', skip_failed=False, **th, **ref_ns(d))
+    def reaches_conversion(row):
+        if row['unknown'] or not accepted(fmt, row, th):
+            return False
+        return not (fmt == 'arriba' and row['antisense'])
+    fatal = [row for row in case['rows'] if row.get('nochrom') and reaches_conversion(row)]
+    if fatal:
+        # a row that cannot be converted: without --skip-failed the command must end with an
+        # error; with it the row is skipped and the others are converted as usual
+        out.label('unconvertible_row')
+        try:
+            with drive.quiet():
+                getattr(mod(cmd), cmd)(a)
+        except Exception:     # pylint: disable=broad-except
+            pass
+        else:
+            return out.fail(f'{cmd} without --skip-failed completed although a row names a '
+                f'contig that the genome does not hold (rows {case["rows"]})',
+                fmt + '-no-abort')
+        if (d/'fusion.gvf').exists():
+            (d/'fusion.gvf').unlink()
+        a.skip_failed = True
     try:
         with drive.quiet(capture_log=True) as h:
             import logging
@@ -228,6 +256,8 @@ def prop(case, ctx):
     nontrivial = False
     for row in case['rows']:
         g1, g2 = ref.genes[row['g1']], ref.genes[row['g2']]
+        if row in fatal:
+            continue
         if fmt == 'arriba':
             if row['unknown']:
                 n_skip['gene'] += 1
